@@ -151,6 +151,10 @@ def _worker(i):
 
 
 def analyse_crate(prog, crate, jobs=None, with_defs=False):
+    try:
+        prog.crate("lexgen_util")        # the runtime's bodies must be at hand before expansions are read
+    except Exception:
+        pass
     exps = lts.find_expansions(crate)
     if not exps:
         return []
